@@ -754,6 +754,20 @@ pub fn run_codec(cfg: &Value) -> Value {
         Ok(Err(_)) => json!("err"),
         Err(_) => json!("panic"),
     };
+    // serde: the data shapes OTHER formats may hand to the proof's visitor (a hostile or self-describing input chooses the shape and the declared
+    // length): each must end in a value or an error
+    if cfg["serde_shapes"].as_bool().unwrap_or(false) {
+        let mut shapes = serde_json::Map::new();
+        for (name, kind) in [("seq_huge_hint", 0u8), ("seq_exact", 1), ("string", 2), ("u64", 3), ("byte_buf", 4), ("unit", 5), ("seq_hint_zero", 6)] {
+            let r = catch_unwind(AssertUnwindSafe(|| <RistrettoRangeProof as serde::Deserialize>::deserialize(ShapeDeserializer { kind, bytes: &bytes })));
+            shapes.insert(name.to_string(), match r {
+                Ok(Ok(q)) => json!({"ok": q.to_bytes() == bytes}),
+                Ok(Err(_)) => json!("err"),
+                Err(_) => json!("panic"),
+            });
+        }
+        out["serde_shapes"] = Value::Object(shapes);
+    }
     // serde path: bincode frames a byte string as u64 length + bytes
     let mut framed = (bytes.len() as u64).to_le_bytes().to_vec();
     framed.extend_from_slice(&bytes);
@@ -794,4 +808,53 @@ pub fn run_codec(cfg: &Value) -> Value {
     }
     let _ = (ExtensionDegree::DefaultPedersen, VerifyAction::VerifyOnly, CompressedRistretto::identity(), Scalar::ZERO);
     out
+}
+
+
+/// a Deserializer that presents the proof bytes to the visitor in a shape of its own choosing (what a self-describing format does with untrusted input)
+struct ShapeDeserializer<'a> {
+    kind: u8,
+    bytes: &'a [u8],
+}
+struct ShapeSeq<'a> {
+    bytes: &'a [u8],
+    pos: usize,
+    hint: Option<usize>,
+}
+impl<'de, 'a> serde::de::SeqAccess<'de> for ShapeSeq<'a> {
+    type Error = serde::de::value::Error;
+
+    fn next_element_seed<T: serde::de::DeserializeSeed<'de>>(&mut self, seed: T) -> Result<Option<T::Value>, Self::Error> {
+        use serde::de::IntoDeserializer;
+        if self.pos >= self.bytes.len() {
+            return Ok(None);
+        }
+        let b = self.bytes[self.pos];
+        self.pos += 1;
+        seed.deserialize(b.into_deserializer()).map(Some)
+    }
+
+    fn size_hint(&self) -> Option<usize> {
+        self.hint
+    }
+}
+impl<'de, 'a> serde::Deserializer<'de> for ShapeDeserializer<'a> {
+    type Error = serde::de::value::Error;
+
+    fn deserialize_any<V: serde::de::Visitor<'de>>(self, v: V) -> Result<V::Value, Self::Error> {
+        match self.kind {
+            0 => v.visit_seq(ShapeSeq { bytes: &self.bytes[..self.bytes.len().min(3)], pos: 0, hint: Some(usize::MAX) }),
+            1 => v.visit_seq(ShapeSeq { bytes: self.bytes, pos: 0, hint: Some(self.bytes.len()) }),
+            2 => v.visit_str("not a proof"),
+            3 => v.visit_u64(self.bytes.len() as u64),
+            4 => v.visit_byte_buf(self.bytes.to_vec()),
+            5 => v.visit_unit(),
+            _ => v.visit_seq(ShapeSeq { bytes: self.bytes, pos: 0, hint: Some(0) }),
+        }
+    }
+
+    serde::forward_to_deserialize_any! {
+        bool i8 i16 i32 i64 i128 u8 u16 u32 u64 u128 f32 f64 char str string bytes byte_buf option unit unit_struct newtype_struct seq tuple
+        tuple_struct map struct enum identifier ignored_any
+    }
 }
